@@ -87,6 +87,9 @@ class Pairs(Sub):
     shards = {"quick": 4, "thorough": 8}
     rule = "non-trivial: endpoints straddle a transition of a shared zone, or one lies within a gap length of a transition, or zones differ"
 
+    def describe(self, case):
+        return {"a": T.render(case["u1"], case["z1"]).isoformat(), "b": T.render(case["u2"], case["z2"]).isoformat(), "true_elapsed_us": case["u2"] - case["u1"]}
+
     def strategy(self, ctx):
         return pair_case()
 
